@@ -25,6 +25,7 @@ func checkC08(r *Run) {
 	r.cur = "B"
 	ruleAlphabet(r, pb)
 	ruleWidth(r, pb)
+	ruleFloatWidth(r, pb)
 	ruleA18(r, pb) // the encoder's argument widths and headers are what the decoder's reader assumes
 	ruleA6(r, pb, []string{cborRel})
 	r.cur = "J"
@@ -823,5 +824,87 @@ func ruleBuildAgreement(r *Run, pj, pb *Prog) {
 			})
 		}
 		r.Ob("HOOK", pr.rel+".JSONMarshalFunc/bound", "-", n >= 1, true, fmt.Sprintf("%d binding(s) of the encoder's marshal hook in package zerolog", n))
+	}
+}
+
+// ruleFloatWidth: the CBOR float appenders emit the width of their Go type on every path — head
+// byte 0xfa and 4 payload bytes for float32, 0xfb and 8 for float64 (the special values are
+// constant strings of the same shape). The decoder prints a 4-byte float with the shortest digits
+// that identify a float32 and an 8-byte float with those of a float64, as the JSON build does for
+// the two Go types: a float64 "compacted" into the 4-byte form decodes to different digits than
+// the JSON build emits for the same call.
+func ruleFloatWidth(r *Run, p *Prog) {
+	for _, w := range []struct {
+		name string
+		head int64
+		n    int
+	}{{"AppendFloat32", 0xfa, 5}, {"AppendFloat64", 0xfb, 9}} {
+		f := p.Method(cborRel, "Encoder", w.name)
+		if !r.Anchor(f != nil, "WIDTH", "cbor.Encoder."+w.name) {
+			continue
+		}
+		f = p.View(f, "", nil)
+		paths, complete := enumPaths(f, 10, 20000)
+		if !complete {
+			r.Fail("WIDTH", FnName(f)+"/float-width", p.Pos(f.Pos()), "cannot enumerate the paths of the float appender")
+			continue
+		}
+		okAll, why, nRet := true, "", 0
+		for _, pa := range paths {
+			if _, isRet := pa.Exit.(*ssa.Return); !isRet {
+				continue
+			}
+			first := int64(-1)
+			count := 0
+			bad := ""
+			feasible := pa.WalkEval(func(bi int, in ssa.Instruction, e *miniEnv) {
+				c, ok := in.(*ssa.Call)
+				if !ok {
+					return
+				}
+				if builtinName(&c.Call) != "append" {
+					if isByteSlice(c.Type()) {
+						bad = "hands the value to " + descr(c.Call.Value) + " instead of writing it"
+					}
+					return
+				}
+				spread, elems := appendElems(c)
+				if spread != nil {
+					str, isS := constString(spread)
+					if !isS {
+						bad = "appends " + descr(spread)
+						return
+					}
+					if count == 0 && len(str) > 0 {
+						first = int64(str[0])
+					}
+					count += len(str)
+					return
+				}
+				for _, el := range elems {
+					if count == 0 {
+						if el != nil {
+							if v, ok := e.eval(pa.ResolveAt(el, bi), 0); ok {
+								first = v & 0xff
+							}
+						}
+					}
+					count++
+				}
+			})
+			if !feasible {
+				continue
+			}
+			nRet++
+			if bad != "" || first != w.head || count != w.n {
+				okAll = false
+				if bad == "" {
+					bad = fmt.Sprintf("writes head byte 0x%02x and %d bytes in all", first, count)
+				}
+				why = bad
+			}
+		}
+		okc := okAll && nRet > 0
+		r.Ob("WIDTH", FnName(f)+"/float-width", p.Pos(f.Pos()), okc, true, tern(okc, fmt.Sprintf("every path writes head byte 0x%02x and %d bytes in all", w.head, w.n), fmt.Sprintf("%s does not write the %d-byte form of its own Go type on every path (%s): the decoder prints the digits of the other width, which differ from what the JSON build emits for the same call", w.name, w.n, why)))
 	}
 }
